@@ -64,3 +64,47 @@ def ok_membership_only(items: List[Item]):
 
 def ok_len(items: List[Item]):
     return len(set(items))
+
+
+# module-level constants: a set of str built from a literal, and one derived by set algebra from a table
+LETTERS = frozenset("ACGU")
+TABLE = {"A": 1, "C": 2, "G": 3}
+DERIVED = LETTERS.intersection(TABLE)
+NUMBERS = frozenset(range(4))
+
+
+def bad_module_constant_loop():
+    out = []
+    for x in LETTERS:
+        out.append(x)
+    return out
+
+
+def bad_module_constant_derived():
+    return [x for x in DERIVED]
+
+
+def bad_walrus_bound_set(items: List[Item]):
+    out = []
+    while (chunk := set(items[:2])) and len(out) < 4:
+        out.append(sorted(chunk, key=lambda it: it.n)[-1])
+    return out
+
+
+def bad_reused_name(items: List[Item]):
+    box = {it for it in items}
+    first = [it for it in box]
+    box = [0 for _ in items]
+    return first, box
+
+
+def ok_module_constant_membership(x: str):
+    return x in LETTERS and x not in DERIVED
+
+
+def ok_module_constant_sorted():
+    return [x for x in sorted(DERIVED)]
+
+
+def ok_module_constant_ints():
+    return [n for n in NUMBERS]
